@@ -31,7 +31,7 @@ Print Assumptions C19_legitimate_request_accepted.
 (* ---------------------------------------------------------------- state-machine level (theories/Dm14Srv.v: DM14Server +
    the serving half of MemoryAccess + the CA's subscriber list, tied to /repo by operation-sequence correspondence) *)
 From J1939 Require Import Dm14Srv.
-From J1939P Require Import Dm14SrvProofs.
+From J1939P Require Import Dm14SrvProofs Dm14SrvPhases.
 
 (* T19.2/T19.3: while a transaction with requester r runs (from its first DM14 until the closing DM14 has been
    received), ANY message from another source address — any PGN, any data, well-formed or not, whatever callbacks are
@@ -55,3 +55,34 @@ Theorem C19_other_pointer_not_served : forall c s r a data,
   quiet s r (deliver c s PGN_DM14 r data).
 Proof. exact other_pointer_not_served. Qed.
 Print Assumptions C19_other_pointer_not_served.
+
+(* the phases of a transaction ARE running states: ANY well-formed 8-byte DM14 (any count, command, pointer, key bytes)
+   from ANY requester arriving at an idle serving side leaves it running for that requester — without seed/key
+   (waiting for respond()), and with seed/key (seed sent, waiting for the key); after the key DM14 with the right key
+   it still is.  From then on running only asks for "server not idle": it holds until the closing DM14 has been
+   received.  So C19_intruder_does_not_disturb applies from the first DM14 to the closing one *)
+Theorem C19_first_dm14_starts_running_noseed : forall c s sa d0 d1 a0 a1 a2 a3 k0 k1,
+  c_seedsec c = false -> c_hasproceed c = true -> idle_state s -> (answers s = [] \/ exists r, answers s = true :: r) ->
+  let '(s', os, e) := listen_for_dm14 c s PGN_DM14 sa [d0; d1; a0; a1; a2; a3; k0; k1] in
+  e = None /\ running s' sa /\
+  os = [SProceedFn (Z.shiftr (Z.land (d1 - 1) 15) 1) (le_int [a0; a1; a2; a3]) (Z.land (Z.shiftr d1 4) 1) 8 d0 65535 sa (k1 * 256 + k0) 0; SNotify].
+Proof. exact first_dm14_noseed_proceed. Qed.
+Print Assumptions C19_first_dm14_starts_running_noseed.
+Theorem C19_first_dm14_starts_running_seedkey : forall c s sa d0 d1 a0 a1 a2 a3 k0 k1,
+  c_seedsec c = true -> idle_state s ->
+  let '(s', os, e) := listen_for_dm14 c s PGN_DM14 sa [d0; d1; a0; a1; a2; a3; k0; k1] in
+  e = None /\ running s' sa /\ a_state s' = D_REQUEST_STARTED /\ v_state s' = R_WAIT_FOR_KEY /\
+  exists sd, v_seed s' = Some sd /\
+             os = [SSend 216 (Z.land sa 255) 6 [0; Z.shiftr d1 4 * 16 + 0 * 2 + 1; 255; 255; 255; 255; Z.land sd 255; Z.shiftr sd 8]].
+Proof. exact first_dm14_seedkey. Qed.
+Print Assumptions C19_first_dm14_starts_running_seedkey.
+Theorem C19_key_dm14_keeps_running : forall c s sa sd d0 d1 a0 a1 a2 a3 k0 k1,
+  c_seedsec c = true -> c_hasproceed c = true -> (answers s = [] \/ exists r, answers s = true :: r) ->
+  a_state s = D_REQUEST_STARTED -> v_state s = R_WAIT_FOR_KEY -> v_sa s = Some sa -> v_busy s = false ->
+  v_addr s = Some [a0; a1; a2; a3] -> v_length s = 8 -> v_seed s = Some sd -> c_key c sd = k1 * 256 + k0 ->
+  v_ptype s <> None -> v_access s <> None ->
+  let '(s', os, e) := listen_for_dm14 c s PGN_DM14 sa [d0; d1; a0; a1; a2; a3; k0; k1] in
+  e = None /\ running s' sa /\ a_state s' = D_WAIT_RESPONSE /\
+  exists cmd ad pt l oc acc, os = [SProceedFn cmd ad pt l oc (k1 * 256 + k0) sa acc sd; SNotify].
+Proof. exact key_dm14_right_key. Qed.
+Print Assumptions C19_key_dm14_keeps_running.
